@@ -1673,6 +1673,9 @@ class Gen:
             if odd and r.chance(1, 6):
                 out.append(r.choice([b"Pss: 18014398509481984 kB", b"Pss: 18014398509481983 kB", b"Pss: 18446744073709551615 kB", b"Pss: 18446744073709551616",
                                      b"Size: x kB", b"Name:", b"Name", b"Key 5", b"Key 5 6 7", b"Rss:\t4\tkB", b"VmFlagsX 1", b"Vmflags: x", b"", b" ", b"X"]))
+        if odd and r.chance(1, 5):             # the reader's two string-slice panic sites, on an otherwise well-formed line
+            out.insert(r.below(len(out) + 1), b"%x-%x r-xp 00000000 00:00 0 " % (r.below(1 << 32), self.u(64)) +
+                       r.choice([b"/SYSV12", b"/SYSV", b"/SYSV1234567", "/SYSV1234567é".encode("utf-8"), "[stack:5é".encode("utf-8"), "[stack:é".encode("utf-8")]))
         if odd and r.chance(1, 6):
             out.insert(0, r.choice([b"Rss: 4 kB", b"VmFlags: rd", b"", b"\r"]))
         sep = b"\r\n" if crlf else b"\n"
